@@ -149,6 +149,15 @@ Proof.
   split; [now left|]. vm_compute. reflexivity.
 Qed.
 
+(** * ExactlyK never asks for the pop count of an empty list (/repo 4d027cb) *)
+Lemma exactlyk_empty_list_total (fb : flat) (k f l : nat) (wb : option geometry) (fresh : Z) (ct : contrib) :
+  apply_exactlyk fb k f l wb fresh = COk ct ->
+  Forall (fun q : req => snd q <> []) (ct_requests ct).
+Proof.
+  unfold apply_exactlyk. destruct (var_lists fb f l wb) as [vls|e]; cbn [cbind]; [|discriminate].
+  intros E. inversion E. subst ct. cbn [ct_requests]. apply exactlyk_requests_no_empty.
+Qed.
+
 (** * AtLeastKInARow / ExactlyKInARow never fail on the window length *)
 Lemma inarow_short_window_total (fb : flat) (k f l : nat) (wb : option geometry) (fresh : Z) (vls : list (list nat)) :
   var_lists fb f l wb = COk vls ->
